@@ -173,5 +173,27 @@ EmitOptionsFront ==
           txt == Join(OptRuns[r], Seps[m]) \o Seps[m] \o body \o Edges[b]
           canon == ParseText(Join(OptRuns[r], <<cSP>>) \o <<cSP>> \o body)
       IN PrintT(ToJson([i |-> txt, e |-> canon, tag |-> "C06"]))
+\* the quoting style of an argument, for values holding characters that a shell-like reading of quotes would
+\* treat specially (backslashes alone and doubled, $ ~ # ; & | ` ! * ? { } and the other quote character): bare,
+\* single- and double-quoted spellings give what the bare spelling gives (the specification is asked for the
+\* bare one; a value the bare spelling cannot carry is skipped)
+QuoteKws == << Cp("-name"), Cp("-regex"), Cp("-ipath"), Cp("-fprint"), Cp("-xattr"), Cp("-pool"), Cp("-printf"), Cp("-fls") >>
+QuoteVals == << Cp("a\\\\b"), Cp("\\\\"), Cp("a\\b"), Cp("\\\\\\\\x"), Cp("a\\"), Cp("x$y"), Cp("$HOME"), Cp("~a"), Cp("a#b"), Cp("#"), Cp("a;b"), Cp("a&b"),
+               Cp("a|b"), Cp("`x`"), Cp("!x"), Cp("*"), Cp("a?"), Cp("{}"), Cp("{a,b}"), Cp("a\\nb"), Cp("\\t"), Cp("a=b"), Cp("-x"), Cp("--"), Cp("@"), Cp("a,b"),
+               Cp("x\\'y"), Cp("a\\\"b"), Cp("^a$"), Cp("[a]"), Cp("a%%b"), Cp("<a>") >>
+EmitQuoteSweep ==
+  vSeq = <<>> =>
+    \A k \in 1..Len(QuoteKws) : \A v \in 1..Len(QuoteVals) :
+      LET val == QuoteVals[v]
+          pre == QuoteKws[k] \o <<cSP>>
+          tail == IF QuoteKws[k] = Cp("-xattr") THEN <<>> ELSE <<>>
+          bare == pre \o val
+          canon == ParseText(bare)
+      IN canon.st = "ok" =>
+           /\ PrintT(ToJson([i |-> bare, e |-> canon, tag |-> "C06"]))
+           /\ (~HasChar(val, cSQ) => PrintT(ToJson([i |-> pre \o <<cSQ>> \o val \o <<cSQ>>, e |-> canon, tag |-> "C06"])))
+           /\ (~HasChar(val, cDQ) => PrintT(ToJson([i |-> pre \o <<cDQ>> \o val \o <<cDQ>>, e |-> canon, tag |-> "C06"])))
+           /\ (~HasChar(val, cDQ) => PrintT(ToJson([i |-> Cp("( ") \o pre \o <<cDQ>> \o val \o <<cDQ>> \o Cp(" ) -o -true"),
+                                                     e |-> ParseText(Cp("( ") \o bare \o Cp(" ) -o -true")), tag |-> "C06"])))
 InvBlank == vSeq = <<>> => \A s \in BlankStrs : ParseText(s).st = "ok" /\ ParseText(s).t = TrueNode
 =============================================================================
